@@ -1,0 +1,274 @@
+//! Verification hook H3 (only compiled with `--cfg woodpile_verif`).
+//!
+//! Drop-in replacements for `std::sync::atomic::AtomicU64` and
+//! `std::sync::Mutex`, restricted to what `atomic_base_time.rs` uses.
+//!
+//! When no [`Backend`] is registered on the calling thread, every call is
+//! passed straight through to the wrapped std object, so the crate behaves
+//! exactly as it does without the hook.
+//!
+//! When a backend is registered (see [`set_backend`]), every atomic access and
+//! every lock operation is *reported* to it (object address, kind, ordering,
+//! value stored) and the result of loads / `lock` / `try_lock` is *taken from
+//! it*; the wrapped objects are not modified (stores are not written
+//! through), so a function can be re-run from the start against the same
+//! object.  A backend method may unwind (panic with a private payload) to stop
+//! the calling function at that operation; operations reported while the
+//! thread is already unwinding (guards being dropped) must not unwind again.
+use std::cell::RefCell;
+use std::fmt;
+use std::ops::{Deref, DerefMut};
+use std::sync::atomic::Ordering;
+use std::sync::{LockResult, PoisonError, TryLockError, TryLockResult};
+
+/// What a simulated `lock` / `try_lock` returned.
+#[derive(Clone, Copy, Debug, PartialEq, Eq)]
+pub enum LockOutcome {
+    /// The lock was acquired.
+    Acquired,
+    /// The lock was acquired and is poisoned.
+    Poisoned,
+    /// `try_lock` only: somebody else holds the lock.
+    WouldBlock,
+}
+
+/// Receiver of every access made through the shim on the registering thread.
+///
+/// `obj` is the address of the shim object (`AtomicU64` or `Mutex`);
+/// `initial` is the value the wrapped std atomic holds (never modified while a
+/// backend is registered, i.e. the value it was constructed with).
+pub trait Backend {
+    /// An atomic load; returns the value the load observes.
+    fn load(&mut self, obj: usize, ord: Ordering, initial: u64) -> u64;
+    /// An atomic store of `val`.
+    fn store(&mut self, obj: usize, ord: Ordering, val: u64, initial: u64);
+    /// `Mutex::lock`; must return `Acquired` or `Poisoned` (or unwind when the lock is not available).
+    fn lock(&mut self, obj: usize) -> LockOutcome;
+    /// `Mutex::try_lock`.
+    fn try_lock(&mut self, obj: usize) -> LockOutcome;
+    /// A guard was dropped; `poison` says whether the drop happens during a
+    /// panic that started while the guard was held (std's poisoning rule).
+    fn unlock(&mut self, obj: usize, poison: bool);
+    /// `Mutex::clear_poison`.
+    fn clear_poison(&mut self, obj: usize);
+}
+
+thread_local! {
+    static BACKEND: RefCell<Option<Box<dyn Backend>>> = const { RefCell::new(None) };
+}
+
+/// Registers (or, with `None`, removes) the backend of the calling thread and
+/// returns the previous one.
+pub fn set_backend(backend: Option<Box<dyn Backend>>) -> Option<Box<dyn Backend>> {
+    BACKEND.with(|b| std::mem::replace(&mut *b.borrow_mut(), backend))
+}
+
+/// Runs `f` on the calling thread's backend, if there is one.
+fn with_backend<R>(f: impl FnOnce(&mut dyn Backend) -> R) -> Option<R> {
+    BACKEND.with(|b| match b.try_borrow_mut() {
+        Ok(mut slot) => slot.as_mut().map(|be| f(be.as_mut())),
+        // Re-entrant use (a backend calling into shimmed code): pass through.
+        Err(_) => None,
+    })
+}
+
+fn backend_registered() -> bool {
+    BACKEND.with(|b| b.try_borrow().map(|s| s.is_some()).unwrap_or(false))
+}
+
+/// Stand-in for `std::sync::atomic::AtomicU64`.
+pub struct AtomicU64 {
+    inner: std::sync::atomic::AtomicU64,
+}
+
+impl AtomicU64 {
+    /// See `std::sync::atomic::AtomicU64::new`.
+    pub const fn new(v: u64) -> Self {
+        Self {
+            inner: std::sync::atomic::AtomicU64::new(v),
+        }
+    }
+
+    fn id(&self) -> usize {
+        self as *const Self as usize
+    }
+
+    /// See `std::sync::atomic::AtomicU64::load`.
+    pub fn load(&self, ord: Ordering) -> u64 {
+        let id = self.id();
+        match with_backend(|be| be.load(id, ord, self.inner.load(Ordering::Relaxed))) {
+            Some(v) => v,
+            None => self.inner.load(ord),
+        }
+    }
+
+    /// See `std::sync::atomic::AtomicU64::store`.
+    pub fn store(&self, val: u64, ord: Ordering) {
+        let id = self.id();
+        if with_backend(|be| be.store(id, ord, val, self.inner.load(Ordering::Relaxed))).is_none() {
+            self.inner.store(val, ord)
+        }
+    }
+}
+
+impl fmt::Debug for AtomicU64 {
+    /// With a backend registered: the identity of the object (so that a
+    /// harness can name the fields of a `#[derive(Debug)]` structure);
+    /// otherwise what std prints.
+    fn fmt(&self, f: &mut fmt::Formatter<'_>) -> fmt::Result {
+        if backend_registered() {
+            write!(f, "shim@{}", self.id())
+        } else {
+            fmt::Debug::fmt(&self.inner, f)
+        }
+    }
+}
+
+/// Stand-in for `std::sync::Mutex`.
+pub struct Mutex<T> {
+    inner: std::sync::Mutex<T>,
+}
+
+/// Stand-in for `std::sync::MutexGuard`.
+pub struct MutexGuard<'a, T> {
+    // Always `Some` until dropped.
+    real: Option<std::sync::MutexGuard<'a, T>>,
+    // `Some((mutex address, thread was panicking at lock time))` when the guard was handed out by a backend.
+    simulated: Option<(usize, bool)>,
+}
+
+impl<T> Mutex<T> {
+    /// See `std::sync::Mutex::new`.
+    pub const fn new(t: T) -> Self {
+        Self {
+            inner: std::sync::Mutex::new(t),
+        }
+    }
+
+    fn id(&self) -> usize {
+        self as *const Self as usize
+    }
+
+    /// In backend mode the wrapped mutex only provides access to the data:
+    /// it is never contended (one simulated thread runs at a time) and its
+    /// own poison flag is ignored.
+    fn real_for_backend(&self) -> std::sync::MutexGuard<'_, T> {
+        match self.inner.try_lock() {
+            Ok(g) => g,
+            Err(TryLockError::Poisoned(e)) => e.into_inner(),
+            Err(TryLockError::WouldBlock) => {
+                panic!("verif_shim: the backend granted a mutex that is really held")
+            }
+        }
+    }
+
+    /// See `std::sync::Mutex::lock`.
+    pub fn lock(&self) -> LockResult<MutexGuard<'_, T>> {
+        let id = self.id();
+        match with_backend(|be| be.lock(id)) {
+            None => match self.inner.lock() {
+                Ok(g) => Ok(MutexGuard {
+                    real: Some(g),
+                    simulated: None,
+                }),
+                Err(e) => Err(PoisonError::new(MutexGuard {
+                    real: Some(e.into_inner()),
+                    simulated: None,
+                })),
+            },
+            Some(outcome) => {
+                let guard = MutexGuard {
+                    real: Some(self.real_for_backend()),
+                    simulated: Some((id, std::thread::panicking())),
+                };
+                match outcome {
+                    LockOutcome::Acquired => Ok(guard),
+                    LockOutcome::Poisoned => Err(PoisonError::new(guard)),
+                    LockOutcome::WouldBlock => {
+                        panic!("verif_shim: Backend::lock must not return WouldBlock")
+                    }
+                }
+            }
+        }
+    }
+
+    /// See `std::sync::Mutex::try_lock`.
+    pub fn try_lock(&self) -> TryLockResult<MutexGuard<'_, T>> {
+        let id = self.id();
+        match with_backend(|be| be.try_lock(id)) {
+            None => match self.inner.try_lock() {
+                Ok(g) => Ok(MutexGuard {
+                    real: Some(g),
+                    simulated: None,
+                }),
+                Err(TryLockError::Poisoned(e)) => {
+                    Err(TryLockError::Poisoned(PoisonError::new(MutexGuard {
+                        real: Some(e.into_inner()),
+                        simulated: None,
+                    })))
+                }
+                Err(TryLockError::WouldBlock) => Err(TryLockError::WouldBlock),
+            },
+            Some(LockOutcome::WouldBlock) => Err(TryLockError::WouldBlock),
+            Some(outcome) => {
+                let guard = MutexGuard {
+                    real: Some(self.real_for_backend()),
+                    simulated: Some((id, std::thread::panicking())),
+                };
+                match outcome {
+                    LockOutcome::Acquired => Ok(guard),
+                    _ => Err(TryLockError::Poisoned(PoisonError::new(guard))),
+                }
+            }
+        }
+    }
+
+    /// See `std::sync::Mutex::clear_poison`.
+    pub fn clear_poison(&self) {
+        let id = self.id();
+        if with_backend(|be| be.clear_poison(id)).is_none() {
+            self.inner.clear_poison()
+        }
+    }
+}
+
+impl<T> Deref for MutexGuard<'_, T> {
+    type Target = T;
+    fn deref(&self) -> &T {
+        self.real.as_ref().expect("live guard")
+    }
+}
+
+impl<T> DerefMut for MutexGuard<'_, T> {
+    fn deref_mut(&mut self) -> &mut T {
+        self.real.as_mut().expect("live guard")
+    }
+}
+
+impl<T> Drop for MutexGuard<'_, T> {
+    fn drop(&mut self) {
+        // Release the wrapped mutex first (std applies its own poisoning rule to it).
+        drop(self.real.take());
+        if let Some((id, was_panicking)) = self.simulated {
+            let poison = !was_panicking && std::thread::panicking();
+            let _ = with_backend(|be| be.unlock(id, poison));
+        }
+    }
+}
+
+impl<T: fmt::Debug> fmt::Debug for MutexGuard<'_, T> {
+    fn fmt(&self, f: &mut fmt::Formatter<'_>) -> fmt::Result {
+        fmt::Debug::fmt(&**self, f)
+    }
+}
+
+impl<T: fmt::Debug> fmt::Debug for Mutex<T> {
+    /// With a backend registered: the identity of the object; otherwise what std prints.
+    fn fmt(&self, f: &mut fmt::Formatter<'_>) -> fmt::Result {
+        if backend_registered() {
+            write!(f, "shimmutex@{}", self.id())
+        } else {
+            fmt::Debug::fmt(&self.inner, f)
+        }
+    }
+}
